@@ -19,7 +19,7 @@ RULE = (
     "unsupported node must raise or log a warning.  Non-trivial = graph with a transform, gradient or group."
 )
 ASSUMPTIONS = ["COLR evaluator is cross-checked against fontTools getTransform on every transform paint", "generated |scale| >= 0.05 (3-decimal SVG numbers)"]
-N = {"quick": 400, "thorough": 12000}
+N = {"quick": 1600, "thorough": 16000}
 
 
 def plan(tier, seed):
